@@ -308,6 +308,8 @@ def gen_reg_case(rng: common.Rng, algo: str | None = None, kernel: str | None = 
             case["tr"] = {"inputs": gen_tr_spec(rng, d_in, n), "outputs": gen_tr_spec(rng, d_out, n, is_input=False)}
             if algo == "PCERegressor":
                 case["tr"].pop("inputs")
+    if rbf_like:
+        sanitize_rbf_case(rng, case, n)
     if algo in ("PCERegressor", "OTGaussianProcessRegressor") and case["tr"]:
         # the reduced dimensions of these regressors are read from the top-level transformer only
         for k in list(case["tr"]):
@@ -321,6 +323,48 @@ def gen_reg_case(rng: common.Rng, algo: str | None = None, kernel: str | None = 
     # query points: dyadic, away from the learning points
     case["q"] = gen_queries(rng, pts, din, rng.pick([2, 3]))
     return case
+
+
+def has_reduction(spec) -> bool:
+    if spec is None:
+        return False
+    if spec[0] == "Pipeline":
+        return any(has_reduction(t) for t in spec[1])
+    return spec[0] == "PCA" and bool(spec[1].get("n_components"))
+
+
+def sanitize_rbf_case(rng: common.Rng, case, n: int) -> None:
+    """Keep the interpolation problem of kernel models well conditioned (the fit is not modelled).
+
+    A reduction of the inputs can merge centres; rescaled inputs change the ratio spacing/kernel width, so the
+    width is left to SciPy (epsilon=None) and fixed-width callables get no input transformer.
+    """
+    tr = case["tr"]
+    names = case.get("input_names") or [k for k, _ in case["in"]]
+    sizes = dict(map(tuple, case["in"]))
+    din = sum(sizes[k] for k in names)
+    if tr and "inputs" in tr:
+        guard = 0
+        while has_reduction(tr["inputs"]) and guard < 50:
+            guard += 1
+            tr["inputs"] = gen_tr_spec(rng, din, n)
+        if has_reduction(tr["inputs"]):
+            tr.pop("inputs")
+    transformed_inputs = tr is None or "inputs" in tr or any(k in sizes for k in tr)
+    if transformed_inputs:
+        subs = [case["opts"]] + [o for _, o in case.get("chain", [])]
+        fixed_width = False
+        for o in subs:
+            if "epsilon" in o:
+                o["epsilon"] = None
+            if o.get("function") in L.CALLABLES:
+                fixed_width = True
+        if fixed_width:
+            if tr is None:
+                case["tr"] = {"outputs": ["MinMaxScaler", {}]}
+            else:
+                for k in [k for k in tr if k == "inputs" or k in sizes]:
+                    tr.pop(k)
 
 
 def gen_queries(rng: common.Rng, pts, din: int, k: int):
@@ -449,6 +493,19 @@ def check_reg(case: dict[str, Any], res: Result | None = None, deep: bool = True
             return bad
     if PB.shape != (len(Q), dout):
         bad.append((f"predict-shape:{tag}", f"predict of a ({len(Q)},{din}) array returned shape {PB.shape}"))
+        return bad
+    # rounding-noise amplification of the model itself: an ill-conditioned fit (not modelled) is skipped
+    noise = Fraction(0)
+    for q, p in zip(Q, P1):
+        try:
+            p2 = np.asarray(model.predict(q * (1.0 + 2.0**-46) + 2.0**-50), dtype=float)
+            dnoise = L.max_abs_diff(p2, p)
+            noise = max(noise, dnoise if dnoise is not None else Fraction(1))
+        except Exception:  # noqa: BLE001
+            noise = Fraction(1)
+    big = L.max_abs(np.concatenate(P1)) if P1 else Fraction(0)
+    if not (noise <= Fraction(1, 2**34) * max(Fraction(1), L.max_abs(Ym)) and big <= 2**16 * max(Fraction(1), L.max_abs(Ym))):
+        count("ill-conditioned-skipped")
         return bad
     for k, p in enumerate(P1):
         if not L.within(PB[k], p, L.TWO20):
